@@ -651,7 +651,7 @@ SCENARIOS['C09'] = scen_C09
 def scen_C10(ctx):
     ctx.rule = ('L_conv: integer -> key -> integer conversions (by value and by reference), cmp_u8 and placement hashes, crate vs model, on every '
                 'power of two +-1, extremes and seeded random 64-bit values; cmp_u8 on every single-bit difference (x vs x with bit b flipped, b = 0..63) for the three integer types; plus the direct oracle (Python integers); '
-                'L_api: typed-map histories addressed by integers; integer keys one byte apart in a one-bucket table; distinct = distinct input lines / op files')
+                'L_api: typed-map histories addressed by integers; integer keys one byte apart in a one-bucket table; byte-string keys that are prefixes of each other in one chain; distinct = distinct input lines / op files')
     import random
     rng = random.Random('%s/C10' % ctx.seed)
     d = os.path.join(ctx.root, 'conv')
@@ -775,6 +775,22 @@ def scen_C10(ctx):
         lines += ['get@ m0 %d' % k for k in ks] + ['del@ m0 %d' % ks[3], 'len m0'] + ['has@ m0 %d' % k for k in ks] + ['iter m0 iter', 'closeall']
         pair(ctx, 'intkeys_one_byte_apart', i, lines)
     parallel(onebyte, range(ctx.scale(6, 24)))
+
+    # byte-string keys that are PREFIXES of each other (the empty key included, embedded NULs, bytes that are not UTF-8), all in one
+    # bucket chain, through both byte-string key types: each is a key of its own - absent before its put, len grows by one, get
+    # returns its own value, a delete removes only it
+    def prefixes(i):
+        kt = ['bytes', 'string'][i % 2]
+        r = G.G(ctx.seed, 'C10prefix', i).rng
+        base = bytes(r.choice([107, 0, 255, 0xc3, 101, 121, 0x80, 49]) for _ in range(r.choice([6, 12, 24])))
+        ks = [base[:j] for j in range(len(base) + 1)]
+        r.shuffle(ks)
+        lines = ['db d0 db', 'map m0 d0 %s m B%d' % (kt, r.choice([1, 1, 2]))]
+        for n, k in enumerate(ks):
+            lines += ['has m0 %s' % G.hx(k), 'put m0 %s %02x' % (G.hx(k), n), 'len m0']
+        lines += ['get m0 %s' % G.hx(k) for k in ks] + ['del m0 %s' % G.hx(ks[2]), 'len m0'] + ['has m0 %s' % G.hx(k) for k in ks] + ['iter m0 iter', 'closeall']
+        pair(ctx, 'prefix_keys', i, lines)
+    parallel(prefixes, range(ctx.scale(6, 24)))
 
 
 SCENARIOS['C10'] = scen_C10
